@@ -145,7 +145,19 @@ func init() {
 			in.res.Events = append(in.res.Events, sb.String())
 			return TupleV{}
 		},
-		"vhTier":     func(in *Interp, fn *ssa.Function, a []Value) Value { return in.intTerm(in.eng.Tier) },
+		"vhTier": func(in *Interp, fn *ssa.Function, a []Value) Value { return in.intTerm(in.eng.Tier) },
+		// vhStub(name, f): for the rest of this path calls to the function
+		// whose SSA name is `name` run the harness closure f instead
+		// (nondeterministic stub of an environment function)
+		"vhStub": func(in *Interp, fn *ssa.Function, a []Value) Value {
+			if in.stubs == nil {
+				in.stubs = map[string]Value{}
+			}
+			iv := a[1].(IfaceV)
+			in.stubs[in.concreteStr(a[0], "stub name")] = iv.V
+			in.res.NoNative = true
+			return TupleV{}
+		},
 		"vhSymbolic": func(in *Interp, fn *ssa.Function, a []Value) Value { return in.ctx.True },
 		"vhLog": func(in *Interp, fn *ssa.Function, a []Value) Value {
 			dbg("vhLog: %s", in.show(a[0]))
